@@ -29,12 +29,14 @@ int main(int argc, char** argv) {
   if (argc > 7) m->opt.cone = atoi(argv[7]);
   if (argc > 8) m->opt.jacobian = atoi(argv[8]);
   if (argc > 9) m->opt.noslip_iterations = atoi(argv[9]);
-  // configuration as the engine resolves it (printed before any stepping: sanitizer runs halt at the first report), used by the
-  // caller to classify reports by mechanism
-  printf("CONFIG nv=%d sparse=%d islands_enabled=%d solver_pgs=%d cone=%d noslip=%d nthread=%d\n", (int)m->nv, mj_isSparse(m),
-         (m->opt.disableflags & mjDSBL_ISLAND) ? 0 : 1, m->opt.solver == mjSOL_PGS, (int)m->opt.cone, m->opt.noslip_iterations, nthread);
-  fflush(stdout);
   mjData* d = mj_makeData(m);
+  // configuration as the engine resolves it (printed before any stepping: sanitizer runs halt at the first report), used by the
+  // caller to classify reports by mechanism; arena = address range that holds the efc_* arrays (efc_force, efc_AR, ...)
+  printf("CONFIG nv=%d sparse=%d islands_enabled=%d solver_pgs=%d cone=%d noslip=%d nthread=%d arena_lo=%llu arena_hi=%llu\n", (int)m->nv,
+         mj_isSparse(m), (m->opt.disableflags & mjDSBL_ISLAND) ? 0 : 1, m->opt.solver == mjSOL_PGS, (int)m->opt.cone,
+         m->opt.noslip_iterations, nthread, (unsigned long long)(uintptr_t)d->arena,
+         (unsigned long long)((uintptr_t)d->arena + d->narena));
+  fflush(stdout);
   vf_taskhook_install(mode, seed * 2654435761u + 1);
   mju_threadpool(d, nthread);
   uint64_t rs = seed * 0x9E3779B97F4A7C15ull + 3;
